@@ -36,6 +36,7 @@ Pool == {
   [extend |-> [precedence |-> "before", units |-> [g |-> [names |-> <<"gramme">>, symbols |-> <<"gr">>]]]],
   [extend |-> [precedence |-> "after", units |-> [gram |-> [symbols |-> <<"gm">>, aliases |-> <<"gramo">>]]]],
   [extend |-> [precedence |-> "override", units |-> [min |-> [names |-> <<"minuto">>], h |-> [ratio |-> 3601]]]],
+  [extend |-> [units |-> [gr |-> [aliases |-> <<"gx">>]]]],                                                                  \* addresses a unit by a key only an earlier extend adds (gr)
   [extend |-> [units |-> [kg |-> [aliases |-> <<"kilo">>]]]],                                                                \* alias on an SI-expanded unit
   [extend |-> [units |-> [kg |-> [ratio |-> 2]]]],                                                                           \* edits an expanded unit
   [extend |-> [units |-> [g |-> [ratio |-> 2]]]],                                                                            \* the parent of expanded units is re-based: kg, mg ... follow
